@@ -78,6 +78,18 @@ REGISTRY["C19"] = dict(
     ),
     assumptions=TRUSTED,
 )
+REGISTRY["C20"] = dict(
+    module="c20",
+    level="other",
+    technique="static analysis of main's MIR: flag->builder table extraction with polarity, value-flow from the library result to the single output write, error-handler shape (eprintln + non-zero exit), `?` propagation of I/O results",
+    claim=(
+        "Structural clauses over `main`: flag/builder pairs with polarity equal the documented map and the fully built Options reaches from_path/from_string; the only output write is write_all of exactly the Ok payload, "
+        "to stdout or the OUTPUT file; the Err path prints the error with eprintln! and exits with a non-zero constant before any write; I/O results propagate with `?`. "
+        "NOT decided: process-level behaviour as such (clap parsing, OS errors, what the library returns)."
+    ),
+    explanation="Clauses of DESIGN.md §3 C20, decided on the MIR of grass::main and its closures in the current tree. NOT decided: clap's parsing, OS-level behaviour, equality of CLI and library output as executed.",
+    assumptions=TRUSTED + ["E3: documented CLI flag -> Options builder map"],
+)
 
 UNBUILT = "check not built yet in this session (design in DESIGN.md §3); not claimed until its rules run clean on the pinned tree"
 NOT_APPLICABLE = {
